@@ -19,6 +19,7 @@ def run(ctx, rep):
     e7b_khi.check_half_grouping(facts, rep)
     e7b_khi.check_cone(facts, rep)
     e7b_khi.check_inv_link(facts, rep)
+    e7b_khi.check_sym_base_point(facts, rep)
     import e22_choose
     e22_choose.check_consume(facts.bodies['yui_kh::khi::internal::v2::builder::SymTngBuilder::<R>::process_all'], rep, 'SymTngBuilder::process_all')
     n = e8_formulas.check_ss(facts, rep, sites=[s for s in e8_formulas.SS_SITES if 'khi' in s[0]])
